@@ -18,7 +18,7 @@ CHECKS = {
     "C01": {
         "level": "exploration",
         "ref": "DESIGN.md section 2, C01; section 1.2 (reference model)",
-        "technique": "property-based testing: generated power trees vs independent reference transfer laws (row checker) + supply-mirroring metamorphic relation (Hypothesis)",
+        "technique": "property-based testing: generated power trees (with and without load phases) vs independent reference transfer laws (row checker) + supply-mirroring metamorphic relation (Hypothesis)",
         "text": "Generated trees of all 11 kinds (constants and 1-D/2-D tables, both polarities, PMux, 1-3 sources) are solved by the real code; every returned row is compared with its neighbours (Vin = feeder's Vout, Iout = sum of children's Iin) and with an independently written transfer law evaluated at the reported (Vin, Iout), within the residual the solver's own convergence test allows; negating all sources must mirror passive chains and change nothing else. Exploration is the honest level: the property quantifies over an unbounded family of trees and real-valued parameters.",
         "note": "Trusted base: vlib/refmodel.py (laws transcribed from docstrings/property text), tolerance 3*(1e-8+tol*|x|), either triangulation accepted inside a 2-D table cell. Known finding F1 (negative source with rs>0) is excluded by construction and re-demonstrated by a probe.",
     },
@@ -32,7 +32,7 @@ CHECKS = {
     "C03": {
         "level": "exploration",
         "ref": "DESIGN.md section 2, C03",
-        "technique": "property-based testing: outcome classification, one-more-evaluation residual check, physicality predicate, sweep counting, differential against an independent reference steady-state solver (Hypothesis)",
+        "technique": "property-based testing: outcome classification, one-more-evaluation residual check, physicality predicate, sweep counting, differential against an independent reference steady-state solver (Hypothesis) + exhaustive enumeration of series kind x load x drop fraction x polarity x small maxiter",
         "text": "Overloaded and modest systems are solved with drawn vtol/itol/maxiter. The outcome must be a table, RuntimeError or ValueError; a table must be finite, reproduce under one more evaluation of every law at the requested tolerance, show no inverted/amplified passive series element, and must not have been first met after sweep maxiter (sweeps counted by wrapping the propagation routine). When my reference solver finds a steady state with all series drops <= 10 %, solve() with defaults must return it. The 'finds' clause is liveness-flavoured and only sampled.",
         "note": "Trusted base: reference solver in vlib/refmodel.py as existence witness. Known findings F1, F8 (Rectifier rs list -> TypeError), F17 (mux start-up transient trips a polarity guard) are excluded by construction and probed.",
     },
@@ -46,7 +46,7 @@ CHECKS = {
     "C05": {
         "level": "exploration",
         "ref": "DESIGN.md section 2, C05",
-        "technique": "property-based testing with exhaustive enumeration of all 2^k live/dead input patterns per generated mux system (one load phase per pattern), reference selection rule + row checker (Hypothesis)",
+        "technique": "property-based testing with exhaustive enumeration of all 2^k live/dead input patterns per generated mux system (one load phase per pattern), reference selection rule + row checker; edited-input streams (rename, rail change, delete keeping children; enumerated merge scenarios) (Hypothesis + enumeration)",
         "text": "A dedicated generator builds a PMux with 1-4 inputs behind individual chains and gives the system one phase per live/dead pattern, so every pattern of every generated mux is solved. The selected input expected from the spec must be the one the table shows: Vin, Parent/Rail in and Domain name it, Vout uses rs[selected], only the selected input carries the mux current, no live input means an all-zero mux and subtree.",
         "note": "Liveness by the C04 rule; Parent label unchecked when no input is live; Domain only with >= 2 sources. About 20 % of generated systems are unsolvable in some phase (input voltages differ) and are skipped, counted in the evidence.",
     },
@@ -60,7 +60,7 @@ CHECKS = {
     "C07": {
         "level": "exploration",
         "ref": "DESIGN.md section 2, C07",
-        "technique": "property-based testing: re-aggregation oracle (domains, subsystem/total/average/energy rows recomputed from component rows and the spec) over generated multi-source systems in drawn insertion orders (Hypothesis)",
+        "technique": "property-based testing: re-aggregation oracle (domains, subsystem/total/average/energy rows recomputed from component rows and the spec) over generated multi-source systems in drawn insertion orders and after generated edit histories (Hypothesis)",
         "text": "For generated systems with 1-3 sources, optional PMux and phases, built in a drawn topological insertion order, the expected domain of every component is derived from the spec (following the mux's selected input) and every Subsystem, System total, System average and 24h-energy cell is recomputed from the component rows and compared at 1e-9. The same aggregate oracle is run by the C16 state machine after edit histories, which covers the 'after any edit history' part of the quantifier.",
         "note": "I3: Subsystem voltage = source row's Vin. Efficiency cells compared at 1e-7 absolute (percent).",
     },
@@ -95,7 +95,7 @@ CHECKS = {
     "C12": {
         "level": "exploration",
         "ref": "DESIGN.md section 2, C12",
-        "technique": "property-based testing: save/load round trip compared through all reports + fixed point of the JSON document; version gate by rewriting the file's version (Hypothesis)",
+        "technique": "property-based testing: save/load round trip compared through all reports + fixed point of the JSON document, also for systems reached through generated edit histories; version gate by rewriting the file's version incl. pre-/post-release forms (Hypothesis)",
         "text": "Full-feature generated systems are saved and reloaded; solve(energy=True), rail_rep(), params(limits=True) on applicable keys and phases() must agree keyed by component/phase, the mux input order must survive, and saving the reloaded system must reproduce the same JSON document up to sibling order (which covers every stored parameter including tables and rectifier mode). Bumped versions must be refused with ValueError.",
         "note": "Non-applicable limits are not persisted by design of the property ('applicable limits').",
     },
@@ -109,7 +109,7 @@ CHECKS = {
     "C14": {
         "level": "exploration",
         "ref": "DESIGN.md section 2, C14/C15/C16 (edit-history state machine)",
-        "technique": "model-based stateful property testing (Hypothesis RuleBasedStateMachine over the edit API) with a well-formedness invariant after every step",
+        "technique": "model-based stateful property testing (Hypothesis RuleBasedStateMachine over the edit API) with a well-formedness invariant after every step + bounded-exhaustive small-scope enumeration of all call sequences up to length 4/5 over a 10-call alphabet",
         "text": "Random histories of add_source/add_comp/change_comp/del_comp/set_*_phases calls, with arguments drawn from the current model so that valid calls and every kind of collision are frequent, are applied to the real system; after every step - accepted or rejected - the invariant (unique and disjoint names/rails, consistent registries, roots = Sources, childless loads, single multi-parent PMux, only links add_comp accepts, save() lists exactly the components) is checked on the real system.",
         "note": "Reads the graph and registries (private) and cross-checks the public save() document. Histories are bounded (25/40 steps).",
     },
@@ -130,7 +130,7 @@ CHECKS = {
     "C17": {
         "level": "fault_enumeration",
         "ref": "DESIGN.md section 2, C17",
-        "technique": "property-based testing of call interleavings with snapshot invariance + exhaustive enumeration of the failing callback index k and of solver-failure steps for batt_life (Hypothesis + enumeration)",
+        "technique": "property-based testing of call interleavings with snapshot invariance + exhaustive enumeration of the failing callback index k (Exception and BaseException types) and of solver-failure steps for batt_life + metamorphic relation: the same edit history with and without interleaved analyses (Hypothesis + enumeration)",
         "text": "Drawn interleavings of the eleven analysis calls must leave the full snapshot and every passed-in object unchanged and every solve() table equal to the first. For batt_life a terminating battery model is run once to learn its n callback calls and then re-run with an exception injected at every k in 0..n-1 (three exception types) and with the solver made to fail from every step: afterwards the battery's vo/rs in params() and the snapshot must be the original.",
         "note": "exhaustive on the fault index axis for each generated (system, model); systems and models themselves are sampled.",
     },
@@ -144,7 +144,7 @@ CHECKS = {
     "C19": {
         "level": "exploration",
         "ref": "DESIGN.md section 2, C19",
-        "technique": "property-based testing: DOT output of make_diag/make_hdiag parsed back and compared with the spec, the configuration precedence rule and losses recomputed from solve(); SI formatter checked directly (Hypothesis)",
+        "technique": "property-based testing: DOT output of make_diag/make_hdiag parsed back and compared with the spec (also after generated edit histories), the configuration precedence rule and losses recomputed from solve(); SI formatter checked directly (Hypothesis)",
         "text": "For generated systems, groups and three-level configuration overrides the Graphviz source is parsed back: node set, directed edge set, cluster membership, every node/cluster/edge/graph attribute by precedence, unchanged caller configuration; heat labels within 0.5 % of the duration-weighted loss, colours decoding to loss/maxloss, extreme colours for the largest/zero loss, legend showing the maximum.",
         "note": "Checks the DOT source handed to Graphviz, not rendered pixels.",
     },
